@@ -482,7 +482,14 @@ def check_case(case):
         return {"nontrivial": False, "labels": labels + ["edit-not-applicable"]}
     if len(ed) == 3:
         c2, kind, base = ed
-        s1, b1, fe1 = signature_of(base)
+        try:
+            s1, b1, fe1 = signature_of(base)
+        except RecursionError:
+            raise
+        except Exception:
+            return {"nontrivial": False, "labels": labels + ["edit-does-not-build"]}
+        if s1 is None:
+            return {"nontrivial": False, "labels": labels + ["edit-empties-form"]}
     else:
         c2, kind = ed
     try:
